@@ -22,7 +22,24 @@ let handle = function
     close_in ic;
     let rd z = let i = int_of_z z in if i >= 0 && i < n then small.(Char.code b.[i]) else Z0 in
     let r = audit rd (z_of_int n) in
-    if r = [] then "WF" else "BAD " ^ String.concat " " (List.map cs r)
+    (* canonical form of every data-block index: re-encoding what was decoded gives the bytes that are there *)
+    let rc = if r = [] then recode_all rd (z_of_int n) else [] in
+    if r = [] && rc = [] then "WF"
+    else "BAD " ^ String.concat " " (List.map cs r @ List.map (fun b -> "Recode:" ^ string_of_z b) rc)
+  | ["struct"; path; dbid] ->
+    (* the node fields of one database as the independent reader decodes them, in the format of the harness `struct` line *)
+    let ic = open_in_bin path in
+    let n = in_channel_length ic in
+    let b = really_input_string ic n in
+    close_in ic;
+    let rd z = let i = int_of_z z in if i >= 0 && i < n then small.(Char.code b.[i]) else Z0 in
+    (match struct_db rd (z_of_int n) (z_of_string dbid) with
+     | None -> "NODB"
+     | Some (top, nodes) ->
+       "OK dblvl=" ^ string_of_z top ^
+       String.concat "" (List.map (fun ((((((lvl, pnum), full), lkl), szpow), keys), lk) ->
+         " |" ^ string_of_z lvl ^ "/" ^ string_of_z pnum ^ "/" ^ string_of_z full ^ "/" ^ string_of_z lkl ^ ":p" ^ string_of_z szpow
+         ^ String.concat "" (List.map (fun k -> "," ^ hex_of_bytes k) keys) ^ ";lk=" ^ hex_of_bytes lk) nodes))
   | [] -> ""
   | _ -> "?"
 let () = main_loop handle
